@@ -451,6 +451,10 @@ def programs(draw, kind=None, allow_known=False):
         if op == 'inv':
             return ['inv', a, draw(st.sampled_from([4, 8, 16]))]
         if op == 'mask':
+            if draw(st.integers(0, 4)) == 0:
+                # 32-bit constants (sign-bit masks and their neighbours) combined with a 32-bit operand
+                big = draw(st.sampled_from([0x80000000, 0x7FFFFFFF, 0xFFFFFFFF, 0x80000001, 0x40000000, 0xFFFF0000]))
+                return ['bin', draw(st.sampled_from(['&', '^', '|'])), a, ['c', big]]
             return ['bin', '&', a, ['c', draw(st.sampled_from([1, 3, 15, 255, 65535]))]]
         if op in ('<<', '>>'):
             return ['bin', op, a, ['c', draw(st.integers(0, 4))]]
@@ -606,6 +610,29 @@ def chain_cases(draw, n_cycles):
             if draw(st.integers(0, 2)) == 0:
                 vec[a] ^= 1 << draw(st.integers(0, w - 1))
         seq.append([vec[a] for a, _ in ins])
+    return {'kind': 'program', 'prog': prog, 'inputs': seq}
+
+
+@st.composite
+def constant_cases(draw, n_cycles):
+    """integer literals of every magnitude up to 32 bits (powers of two and their neighbours, all-ones patterns) combined with
+    32-bit inputs and written straight to 32-bit outputs, so that no signed 32-bit variable gets in the way"""
+    kind = draw(st.sampled_from(['seq', 'comb']))
+    ins = [('a0', 32), ('a1', 32)]
+    outs = [('q0', 32), ('q1', 32)]
+    body = []
+    for o, _ in outs:
+        k = draw(st.integers(0, 32))
+        c = draw(st.sampled_from([1 << k, (1 << k) - 1, (1 << k) + 1])) & 0xFFFFFFFF
+        op = draw(st.sampled_from(['&', '|', '^', '&', '^']))
+        a = ['in', draw(st.sampled_from(ins))[0]]
+        e = ['bin', op, a, ['c', c]] if draw(st.booleans()) else ['bin', op, ['c', c], a]
+        if draw(st.integers(0, 3)) == 0:
+            e = ['bin', '>>', e, ['c', draw(st.integers(0, 31))]]
+        body.append(['out', o, e])
+    prog = {'kind': kind, 'ins': ins, 'outs': outs, 'state': [], 'consts': [], 'body': body}
+    seq = [[draw(st.sampled_from([0, 0xFFFFFFFF, 0x80000000, 0x7FFFFFFF, 0xAAAAAAAA, 0x55555555, 1])) if draw(st.booleans()) else draw(st.integers(0, 0xFFFFFFFF))
+            for _ in ins] for _ in range(draw(st.integers(2, n_cycles)))]
     return {'kind': 'program', 'prog': prog, 'inputs': seq}
 
 
@@ -812,6 +839,7 @@ def strata(tier):
     return [
         {'name': 'programs', 'kind': 'hyp', 'examples': 400 if q else 10000, 'strategy': lambda: cases(12 if q else 30), 'run_case': run_case},
         {'name': 'flat_boolean_chains', 'kind': 'hyp', 'examples': 150 if q else 4000, 'strategy': lambda: chain_cases(10 if q else 24), 'run_case': run_case},
+        {'name': 'integer_literals', 'kind': 'hyp', 'examples': 120 if q else 3000, 'strategy': lambda: constant_cases(6), 'run_case': run_case},
         {'name': 'programs_with_known_triggers', 'kind': 'hyp', 'examples': 100 if q else 2000,
          'strategy': lambda: cases(8, allow_known=True), 'run_case': run_case},
         {'name': 'unsupported_constructs', 'kind': 'hyp', 'examples': 120 if q else 2400, 'strategy': lambda: unsupported_cases(6), 'run_case': run_case},
